@@ -838,6 +838,29 @@ def run(ctx):
             checked += 1
             cases.append(Case(expr="true", meta=meta, cell="%s/orbit-stationarity/md%d" % (impl, md), kind="DECISION", impl_fail=d,
                               signature="NUTS.%s.orbit_stationarity" % impl if d else ""))
+    # deep orbits (three doublings) with a slice variable that cuts them: history-dependent top-level decisions
+    for it in range(ctx.n(12, 40)):
+        tk = ["gauss", "split", "gauss"][it % 3]
+        spec = gen_spec(rng, tk, d=1)
+        eps = rng.choice([0.125, 0.25, 0.5])
+        x0, z = gen_start(rng, spec), gen_z(rng, 1)
+        with np.errstate(all="ignore"):
+            st_, f_ = orbit(spec, eps, x0, z, -7, 7)
+            hh = {i_: float(f_(s_[0])) - 0.5 * float(np.dot(s_[1], s_[1])) for i_, s_ in st_.items()}
+        dd = sorted(set(hh[0] - h for h in hh.values() if np.isfinite(h) and 1e-6 < hh[0] - h < 500))
+        if not dd:
+            continue
+        k_ = rng.randrange(len(dd))
+        e = float((dd[k_] + (dd[k_ + 1] if k_ + 1 < len(dd) else 1.5 * dd[k_])) / 2)
+        for impl in ("exp", "leg"):
+            meta = {"impl": impl, "target": spec, "eps": eps, "max_depth": 2, "x0": x0, "z": z, "e": e, "orbit": True}
+            try:
+                d = orbit_stationary(cuqi, impl, spec, eps, 2, x0, z, e)
+            except Exception as ex:
+                d = "kernel enumeration crashed: %r" % ex
+            checked += 1
+            cases.append(Case(expr="true", meta=meta, cell="%s/orbit-stationarity/md2-cut" % impl, kind="DECISION", impl_fail=d,
+                              signature="NUTS.%s.orbit_stationarity" % impl if d else ""))
     return Result(cases=cases, rule=RULE,
                   extra={"orbit_stationarity_checks": checked, "legacy_step_size_1.0_replaced_by_FindGoodEpsilon": state["leg_eps_replaced"],
                          "legacy_refuses_+inf": state["leg_guard"],
